@@ -4,6 +4,7 @@ import SqlProofs.LeadingKeyword
 import SqlModel
 import SqlProofs.SplitValue
 import SqlProofs.Resplit
+import SqlModel.LexCost
 open Sql
 
 def hexVal (ch : Char) : Nat :=
@@ -67,6 +68,13 @@ def cmdLexStable (both : Bool) (s : Array Nat) : String :=
     let d (b : Bool) : String := if b then "1" else "0"
     "ok" ++ String.join (sts.map fun st =>
       if both then " " ++ d (lexStableB st) ++ d (lexStableCB st) else " " ++ d (lexStableB st || lexStableCB st))
+
+/-- `lexwork <hex text>`: the cost model of the whole scan loop (SqlModel/LexCost.lean, bounded by `C16.lex_work_poly`).
+Answer: `ok <lexWork> <text length> <number of tokens>` (three decimal numbers), or `err <PyErr>` if lexing fails. -/
+def cmdLexWork (s : Array Nat) : String :=
+  match lex defaultCfg s with
+  | .error e => "err " ++ e.name
+  | .ok ts => s!"ok {lexWork defaultCfg s} {s.size} {ts.length}"
 
 /-- `csl <isCreate> <beginDepth> <inCase> <type.path> <hex value>` → `delta isCreate beginDepth inCase inDeclare` -/
 def cmdCsl (ws : List String) : String :=
@@ -228,6 +236,7 @@ def handle (line : String) : String :=
   | "split" :: rest => cmdSplit (parseText rest)
   | "lexstable" :: rest => cmdLexStable false (parseText rest)
   | "lexstable2" :: rest => cmdLexStable true (parseText rest)
+  | "lexwork" :: rest => cmdLexWork (parseText rest)
   | "csl" :: rest => cmdCsl rest
   | "quiet" :: rest => cmdQuiet (parseText rest)
   | "views" :: rest => cmdViews (parseText rest)
